@@ -80,7 +80,7 @@ def per_round_fields(facts, work_adt):
     R = roles_mod.roles(facts)
     side = 'enc' if work_adt == roles_mod.ENC_WORK else 'dec'
     # ... and by the begin-of-encode/decode method (state derived there lives until the round ends, like what the adds record)
-    for role in ('%s.add_original' % side, '%s.add_recovery' % side, '%s.begin' % side):
+    for role in ('%s.add_original' % side, '%s.add_recovery' % side, '%s.begin' % side, '%s.undo' % side):
         p = R.fn.get(role)
         if p:
             for w in write_sites(facts, p):
@@ -263,7 +263,8 @@ def collect_params(c, out):
 def is_clearing(w, ty):
     fld, kind, detail = w[0], w[1], w[2]
     if kind == 'assign':
-        return detail == ('const', 0)
+        # zero, or the constant "nothing yet" state of a private field-less enum (`LastChunk::Encoded`)
+        return detail == ('const', 0) or (isinstance(detail, tuple) and len(detail) == 4 and detail[0] == 'adt' and not detail[3])
     if kind == 'call':
         return bool(re.search(r'^fixedbitset::FixedBitSet::clear$|^std::vec::Vec::<.*>::clear$', detail or ''))
     return False
